@@ -969,6 +969,11 @@ func c03SrvCorpus() []struct{ label, evs string } {
 	add("w-rtsp-refused-describe-stop", "sO:1;sD:1:2:5:0;sO:3;sA:3:4:5:0;sO:5;sS:5;sO:6;sY:6:9;S:5")
 	add("w-rtsp-second-announce", "sO:1;sA:1:2:5:1;sA:1:3:5:1;S:5")
 	add("w-rtsp-announce-then-describe", "sO:1;sA:1:2:5:1;sD:1:3:5:1;S:5;sC:1;S:5")
+	// the other order, with and without PLAY in between, the connection then ends: every start has its stop, nobody stays listed
+	add("rtsp-describe-then-announce", "sO:1;sD:1:2:5:1;sA:1:3:5:1;S:5;sC:1;S:5")
+	add("rtsp-describe-then-announce", "sO:1;sD:1:2:5:1;sY:1:9;sA:1:3:5:1;S:5;sC:1;S:5")
+	add("rtsp-describe-then-announce", "sO:1;sD:1:2:5:1;sY:1:9;sA:1:3:6:1;S:5;S:6;sC:1;S:5;S:6")
+	add("rtsp-describe-twice", "sO:1;sD:1:2:5:1;sD:1:3:5:1;S:5;sC:1;S:5")
 	add("w-pull-refused-after-pub", "lS:5:0:0:9;rO:1;rP:1:5:1;lA:9;lD:9;S:5;rM:1;rC:1;S:5")
 	add("w-pull-fails-after-pub", "lS:5:0:0:9;rO:1;rP:1:5:1;lD:9;S:5;rM:1;rC:1;lS:5:0:0:10;lT:5;lS:5:0:0:11;lA:11;K:5:11;lD:11;S:5")
 	add("w-rtp-pub-second-input", "gP:1:5;S:5;gP:2:5;rO:3;rP:3:5:1;K:5:1;gE:1;S:5;rO:4;rP:4:5:1;gP:5:5;S:5;rC:4")
